@@ -3,17 +3,18 @@
    (property C16 quantifies over "any sequence of losses"; EarlyStop.tla covers distinct values).
    With ties the statement leaves two things open, and the model is non-deterministic exactly there:
      - "epochs since the best validation loss" may count from the first or from the last epoch that
-       attained the minimum  ->  stopping is FORCED once even the last minimum is more than
-       `patience` epochs old, ALLOWED once the first one is, FORBIDDEN before;
+       attained the minimum: `reading` (1 = first, 2 = last) is chosen once per run in Init and the
+       stopping rule is then the statement's, read that way, at EVERY epoch of the run (a run that
+       stops too late for the first reading and too early for the last satisfies neither);
      - "the parameters that achieved the minimum" may be those of any epoch attaining it.
    The next loss is any value of 1..V (repetition allowed); the history is part of the state, so the
    graph is a forest. checks/c16.py runs the real fit_to_data on every loss word of the model and
    requires the observed behaviour to be ONE OF the model's behaviours for that word (trace inclusion). *)
 EXTENDS Naturals, Sequences, FiniteSets
 CONSTANTS L, V
-VARIABLES maxEpochs, patience, vals, stopped, version, best, hist
+VARIABLES maxEpochs, patience, reading, vals, stopped, version, best, hist
 
-vars == <<maxEpochs, patience, vals, stopped, version, best, hist>>  \* hist: the choices of best so far (keeps the graph a forest)
+vars == <<maxEpochs, patience, reading, vals, stopped, version, best, hist>>  \* hist: the choices of best so far (keeps the graph a forest)
 
 Min(s) == CHOOSE m \in {s[i] : i \in 1..Len(s)} : \A j \in 1..Len(s) : m <= s[j]
 ArgMins(s) == {i \in 1..Len(s) : s[i] = Min(s)}
@@ -22,9 +23,11 @@ Last(S) == CHOOSE i \in S : \A j \in S : i >= j
 SinceFirst(s) == Len(s) - First(ArgMins(s))
 SinceLast(s) == Len(s) - Last(ArgMins(s))
 Prefix(s, n) == SubSeq(s, 1, n)
+Since(s) == IF reading = 1 THEN SinceFirst(s) ELSE SinceLast(s)
 
 Init == /\ maxEpochs \in 0..L
         /\ patience \in 0..L
+        /\ reading \in {1, 2}
         /\ vals = <<>>
         /\ stopped = FALSE
         /\ version = 0
@@ -39,11 +42,9 @@ Epoch(v) == /\ ~stopped
                /\ best' \in IF Len(vals) = 0 \/ v < Min(vals) THEN {version + 1}
                             ELSE IF v = Min(vals) THEN {best, version + 1}
                             ELSE {best}
-               /\ stopped' \in IF SinceLast(new) > patience THEN {TRUE}
-                               ELSE IF SinceFirst(new) > patience THEN {TRUE, FALSE}
-                               ELSE {FALSE}
+               /\ stopped' = (Since(new) > patience)
             /\ hist' = Append(hist, best')
-            /\ UNCHANGED <<maxEpochs, patience>>
+            /\ UNCHANGED <<maxEpochs, patience, reading>>
 
 Next == \E v \in 1..V : Epoch(v)
 
@@ -52,11 +53,11 @@ Spec == Init /\ [][Next]_vars
 (* ---- the property over histories with ties ---- *)
 AtMostMaxEpochs == Len(vals) <= maxEpochs /\ version = Len(vals)
 
-NeverStopsEarly == stopped => Len(vals) > 0 /\ SinceFirst(vals) > patience
-
-NeverRunsOn == \A n \in 1..(Len(vals) - 1) : SinceLast(Prefix(vals, n)) <= patience
-
-StopsWhenForced == (Len(vals) > 0 /\ SinceLast(vals) > patience) => stopped
+StopsExactlyWhenDocumented ==
+    /\ stopped => /\ Len(vals) > 0
+                  /\ Since(vals) > patience
+                  /\ \A n \in 1..(Len(vals) - 1) : Since(Prefix(vals, n)) <= patience
+    /\ (~stopped) => \A n \in 1..Len(vals) : Since(Prefix(vals, n)) <= patience
 
 BestAttainsMin == IF Len(vals) = 0 THEN best = 0 ELSE best \in ArgMins(vals)
 =============================================================================
